@@ -46,6 +46,8 @@ impl<'a> StateMachine<'a> {
     //@tail Ok(())
     //@| requires sm_wf(old(self)),
     //@| ensures old(self).source == Source::Unknown && final(self).source == Source::DiffUnified ==> counter_armed(&final(self).minus_line_counter),  // @C01,C10:in.a.plain.unified.diff.the.disambiguation.of.three.dash.lines.is.switched.on.whatever.its.first.line.is
+    //@|         old(self).source != Source::Unknown ==> final(self).source == old(self).source,  // @C10,C14:once.the.kind.of.input.is.known.it.is.not.looked.for.again.a.later.line.cannot.turn.a.git.diff.into.a.plain.one
+    //@|         old(self).source == Source::Unknown && is_prefix("diff --git "@, final(self).line@) ==> final(self).source == Source::GitDiff,  // @C10,C14:the.kind.of.input.is.looked.for.at.every.line.until.it.is.known
     //@|         r.is_ok() ==> (final(self).state is HunkHeader ==> is_prefix("-Subproject commit "@, final(self).line@)),  // @C02,C14:a.hunk.header.is.held.back.only.while.the.next.line.may.be.a.submodule.commit
     //@|         r.is_ok() ==> (final(self).state is SubmoduleShort ==> is_prefix("+Subproject commit "@, final(self).line@)),  // @C01:a.submodule.commit.is.held.back.only.while.the.next.line.is.its.partner
     //@|         old(self).state is HunkHeader && is_prefix("-Subproject commit "@, final(self).line@) ==> r.is_ok() && final(self).state == old(self).state && final(self).painter == old(self).painter,  // @C14:while.lines.are.still.coming.a.hunk.header.stays.held.back.when.a.submodule.commit.line.follows.the.commit.range.is.shown.in.its.place
